@@ -103,6 +103,38 @@ def check_singlelane(ck: Checker, rid: str):
             probs.append(f'put notifies {pn}, expected the condition get waits on (`{gc[0]}`)')
         if gn != [pc[0]]:
             probs.append(f'get notifies {gn}, expected the condition put waits on (`{pc[0]}`)')
+    # the predicates: put waits exactly when 0 < maxsize <= len(queue) (0 = unbounded), get exactly when the queue is empty;
+    # decided by evaluating the test that governs each wait over representative (maxsize, length) pairs
+    from mpsa.absval import UNKNOWN, eval_expr
+
+    def wait_test(f_):
+        for w in walk_shallow_func(f_.node):
+            if isinstance(w, ast.If) and any(isinstance(c, ast.Call) and method_of(c)[1] == 'wait' for b in w.body for c in ast.walk(b)):
+                return w.test
+            if isinstance(w, ast.While) and any(isinstance(c, ast.Call) and method_of(c)[1] == 'wait' for b in w.body for c in ast.walk(b)):
+                return w.test
+        return None
+
+    fullf = cls.method('full') if cls.has_method('full') else None
+    full_expr = next((n.value for n in walk_shallow_func(fullf.node) if isinstance(n, ast.Return)), None) if fullf else None
+    for f_, want, what in ((put, lambda m, l: m > 0 and l >= m, 'put waits iff 0 < maxsize <= len(queue)'), (get, lambda m, l: l == 0, 'get waits iff the queue is empty')):
+        t = wait_test(f_)
+        if t is None:
+            probs.append(f'{f_.name}: the test that governs the wait was not found')
+            continue
+        for m_, l_ in ((0, 0), (0, 7), (3, 0), (3, 2), (3, 3), (3, 4), (1, 0), (1, 1)):
+            texts = {'len(self._queue)': l_, 'self._queue': [None] * l_}
+            if full_expr is not None:
+                fv = eval_expr(full_expr, {'self.maxsize': m_, '__texts__': dict(texts)})
+                if fv is not UNKNOWN:
+                    texts['self.full()'] = fv
+            v = eval_expr(t, {'self.maxsize': m_, '__texts__': texts})
+            if v is UNKNOWN:
+                probs.append(f'{f_.name}: the wait predicate `{norm_text(t)[:50]}` could not be evaluated')
+                break
+            if bool(v) != want(m_, l_):
+                probs.append(f'{f_.name}: with maxsize={m_} and {l_} element(s) queued the predicate `{norm_text(t)[:50]}` is {bool(v)} ({what}): ' + ('one element more than `maxsize` is admitted — every bound built on this queue (buffer(n), capacity of parmap) is off by one' if f_ is put and not v else 'the wait discipline of the queue is broken'))
+                break
     # every insertion / removal is followed by exactly one notify before the lock is left, whatever the fill level was:
     # a notify "only when the queue was full / empty before" is enough for one waiter, but the queue is also used with
     # several producer threads (requester threads of the socket client): of k blocked producers only one would ever wake
